@@ -15,5 +15,6 @@ for id in "$@"; do
   out=$(VERIF_REPO="$WT" VERIF_OUT="$WT.out" /verif/bin/check.sh "$id" quick 2>&1)
   code=$?
   first=$(echo "$out" | grep -m1 -A2 '^VIOLATION' | tr '\n' ' ' | cut -c1-300)
-  echo "$id exit=$code $first"
+  internal=$(echo "$out" | grep -c "INTERNAL:")
+  echo "$id exit=$code internal=$internal $first"
 done
